@@ -96,7 +96,7 @@ def jobs(exes, family, tier, seed, prop, plans=None):
             os.makedirs(d, exist_ok=True)
             js.append(core.Job(exes[("e2e_" + queue, variant)],
                                ["--family", family, "--mode", mode, "--seed", seed * 10000 + n, "--scenarios", scen, "--dir", d],
-                               variant=variant, timeout=3600, tag="e2e.%s.%s.%s.%s" % (family, queue, mode, variant), prop=prop, cwd=d))
+                               variant=variant, timeout=(900 if tier == "quick" else 3600), tag="e2e.%s.%s.%s.%s" % (family, queue, mode, variant), prop=prop, cwd=d))
     return js
 
 
